@@ -21,7 +21,9 @@ package core
 //
 // Oracle, per level (parent p, its children as siblings, total = p's runtime as returned by
 // RefreshRuntime(p), or the cluster total for the root): exactly the sibling oracle of c02_test.go with
-//   request   = min(Request, Max) of the child's summary (the "limited request"; its exactness is C01)
+//   request   = the limited request recomputed by the harness from the live pods and the configured
+//               quotas (own pods + children's limited requests, raised to min when the group does not
+//               lend, capped by max); the manager's own figure is only compared and counted
 //   min       = the configured min. With min-scaling ON and only when the configured mins of the
 //               level do NOT fit in the level's total (sum of configured mins > total) the summary's
 //               AutoScaleMin is taken instead: the scaling formula uses floating point and is not part
@@ -202,6 +204,48 @@ func (w *c02World) leaves() []string {
 		}
 	}
 	return out
+}
+
+// modelReq recomputes, from the live pods and the configured quotas only (nothing is read from the
+// manager), what every group asks of its parent: the children's request of a group is what its own
+// pods ask plus the limited requests of its children; a group that does not lend asks for at least its
+// min; nobody asks its parent for more than its max (the "limited request").
+func (w *c02World) modelReq() (limited, child map[string]c02Vec) {
+	self := map[string]c02Vec{}
+	for _, p := range w.pods {
+		if p.live {
+			v := self[p.group]
+			v[0] += p.req[0]
+			v[1] += p.req[1]
+			self[p.group] = v
+		}
+	}
+	limited, child = map[string]c02Vec{}, map[string]c02Vec{}
+	var rec func(n string) c02Vec
+	rec = func(n string) c02Vec {
+		g := w.groups[n]
+		ch := self[n]
+		for _, k := range w.kids(n) {
+			l := rec(k)
+			ch[0] += l[0]
+			ch[1] += l[1]
+		}
+		child[n] = ch
+		var lim c02Vec
+		for d := 0; d < 2; d++ {
+			req := ch[d]
+			if !(g.lend && !w.gate) && req < g.min[d] {
+				req = g.min[d]
+			}
+			lim[d] = c02Min64(req, g.max[d])
+		}
+		limited[n] = lim
+		return lim
+	}
+	for _, n := range w.kids(c02Root) {
+		rec(n)
+	}
+	return
 }
 
 func (w *c02World) remove(n string) {
@@ -832,7 +876,65 @@ func (e *c02Env) afterDetach(oldParent, newParent string, oldMin, newMin c02Vec)
 func (e *c02Env) reparent() bool {
 	w, r := e.w, e.r
 	for _, i := range r.Perm(len(w.order)) {
-		x := w.groups[w.order[i]]
+		if e.reparentOne(w.groups[w.order[i]]) {
+			return true
+		}
+	}
+	return false
+}
+
+// moveNoLendParentThenGrow: a parent group that does not lend and whose children ask for less than
+// its min is moved to another parent; afterwards a pod arrives in its subtree, so the group's request
+// has to be rebuilt from what its children ask now.
+func (e *c02Env) moveNoLendParentThenGrow() bool {
+	w, r := e.w, e.r
+	_, child := w.modelReq()
+	var cands []string
+	for _, n := range w.order {
+		g := w.groups[n]
+		if g.isParent && len(w.kids(n)) > 0 && !(g.lend && !w.gate) && (child[n][0] < g.min[0] || child[n][1] < g.min[1]) {
+			cands = append(cands, n)
+		}
+	}
+	kit.Shuffle(r, cands)
+	for _, n := range cands {
+		x := w.groups[n]
+		if !e.reparentOne(x) {
+			continue
+		}
+		var leaves []string
+		for _, l := range w.leaves() {
+			if l != n && w.inSubtree(l, n) {
+				leaves = append(leaves, l)
+			}
+		}
+		if len(leaves) == 0 {
+			return true
+		}
+		for k, np := 0, r.Range(1, 2); k < np; k++ {
+			var req c02Vec
+			for d := 0; d < 2; d++ {
+				gap := x.min[d] - child[n][d]
+				switch {
+				case gap <= 0:
+					req[d] = int64(r.Range(0, 3))
+				case r.Pct(50): // the children still ask for less than the min
+					req[d] = 1 + r.Int63n(c02Max64(1, gap/2))
+				default: // the children now ask for more than the min
+					req[d] = gap + int64(r.Range(0, 5))
+				}
+			}
+			e.addPodTo(w.groups[kit.Pick(r, leaves)], req)
+		}
+		e.tag("op_move_nolend_parent_then_grow")
+		return true
+	}
+	return false
+}
+
+func (e *c02Env) reparentOne(x *c02Group) bool {
+	w, r := e.w, e.r
+	{
 		h := w.height(x.name)
 		var targets []string
 		for _, t := range append([]string{c02Root}, w.order...) {
@@ -1090,6 +1192,8 @@ func (e *c02Env) check(where string, structural bool) {
 			parents = append(parents, n)
 		}
 	}
+	// the requests the division is judged with come from the pods, not from the manager
+	model, _ := w.modelReq()
 	for _, p := range parents {
 		kids := w.kids(p)
 		total := m.total
@@ -1104,9 +1208,15 @@ func (e *c02Env) check(where string, structural bool) {
 			cfgSum := w.sumKidsMin(p, d, "")
 			fit := cfgSum <= total[d]
 			scaledSeen := false
+			var acct []string
 			for i, k := range kids {
 				g, s := w.groups[k], sums[k]
-				req := c02Min64(c02Of(s.Request)[d], g.max[d])
+				req := model[k][d]
+				if pub := c02Min64(c02Of(s.Request)[d], g.max[d]); pub != req {
+					// accounting (C01) rather than division: counted; the verdict is taken on the runtimes
+					c.Count("converse_misses_manager_request_differs_from_pods", 1)
+					acct = append(acct, fmt.Sprintf("%s: the manager's limited request is %d, its pods and children ask for %d", k, pub, req))
+				}
 				mn := g.min[d]
 				if w.scale {
 					am := c02Of(s.AutoScaleMin)[d]
@@ -1148,6 +1258,11 @@ func (e *c02Env) check(where string, structural bool) {
 					c.Report(c02SigStale, "%s [relation violated: %s; the parent's runtime calculator divides with a request of a non-lending child that was not refreshed when its min was set: %v]", text, sig, hit)
 					c.Count("levels_hit_by_stale_nolend_request", 1)
 					continue
+				}
+				if len(acct) > 0 {
+					// the division was fed a request that is not what the subtree's pods ask for
+					sig += "-by-request-accounting"
+					text += fmt.Sprintf(" [%v]", acct)
 				}
 				if w.scale {
 					sig += "-minscale"
@@ -1215,7 +1330,7 @@ func (e *c02Env) check(where string, structural bool) {
 func TestVerifC02Tree(t *testing.T) {
 	gate0 := k8sfeature.DefaultFeatureGate.Enabled(features.ElasticQuotaGuaranteeUsage)
 	kit.Run(t, kit.Config{Property: "C02", Unit: "tree", Quick: 2500, Thorough: 50000,
-		Rule: "75% random quota trees of depth 1-3 (2-5 top groups, 2-4 children per parent) created through UpdateQuota, values from a small (0..12, frequent ties/residues), realistic (incl. byte-scale amounts whose products exceed 2^53) or 2^56-scale pool, shared weights absent (=max) / zero in one dimension / primes / huge, 30% non-lending groups, 0-3 pods per leaf with requests placed around min and max, cluster total placed below/at/above the top-level min and max sums, min-scaling on in 40%, ElasticQuotaGuaranteeUsage gate on in 15%; 25% crafted min-scaling scenarios (2-3 top-level parents with leaf children, byte-scale memory and milli-cpu mins, skewed weights, requests at/above the mins). 2-4 epochs of changes: cluster total, pod add/delete, min/max/weight updates, re-parent (alone or with a min/max change), delete of a childless group (pods drained or not) and re-creation under the same name; with min-scaling on a move/delete is followed by steering the old parent's total between the min sum of the remaining children and the sum including the detached child (or the new parent's total between its old and new sum), and 'boundary' steps put a parent's total exactly on / one unit beside the sum of its children's mins (non-root parents by bisection on the cluster total). After every epoch: refresh sweeps, the per-level sibling oracle and a fresh manager fed the final objects in another order. distinct = (depth of the level, siblings, outcome class, rounds, residual?, zero-weight competitor?, non-lending?, scaling, gate, after move/delete?); non-trivial = some level divided partially (pool shared but not every request met)"},
+		Rule: "75% random quota trees of depth 1-3 (2-5 top groups, 2-4 children per parent) created through UpdateQuota, values from a small (0..12, frequent ties/residues), realistic (incl. byte-scale amounts whose products exceed 2^53) or 2^56-scale pool, shared weights absent (=max) / zero in one dimension / primes / huge, 30% non-lending groups, 0-3 pods per leaf with requests placed around min and max, cluster total placed below/at/above the top-level min and max sums, min-scaling on in 40%, ElasticQuotaGuaranteeUsage gate on in 15%; 25% crafted min-scaling scenarios (2-3 top-level parents with leaf children, byte-scale memory and milli-cpu mins, skewed weights, requests at/above the mins). 2-4 epochs of changes: cluster total, pod add/delete, min/max/weight updates, re-parent (alone or with a min/max change; also 'move then grow': a non-lending parent group whose children ask for less than its min is moved and a pod then arrives in its subtree), delete of a childless group (pods drained or not) and re-creation under the same name; with min-scaling on a move/delete is followed by steering the old parent's total between the min sum of the remaining children and the sum including the detached child (or the new parent's total between its old and new sum), and 'boundary' steps put a parent's total exactly on / one unit beside the sum of its children's mins (non-root parents by bisection on the cluster total). After every epoch: refresh sweeps, the per-level sibling oracle and a fresh manager fed the final objects in another order. distinct = (depth of the level, siblings, outcome class, rounds, residual?, zero-weight competitor?, non-lending?, scaling, gate, after move/delete?); non-trivial = some level divided partially (pool shared but not every request met)"},
 		func(c *kit.Case) {
 			r := c.R
 			e := &c02Env{c: c, r: r}
@@ -1258,11 +1373,11 @@ func TestVerifC02Tree(t *testing.T) {
 					nops = r.Range(1, 2)
 				}
 				for i := 0; i < nops; i++ {
-					weights := []int{24, 20, 12, 24, 8, 6, 4, 2}
+					weights := []int{24, 20, 12, 24, 8, 6, 4, 2, 12}
 					if w.scenario {
-						weights = []int{4, 6, 4, 8, 28, 14, 10, 26}
+						weights = []int{4, 6, 4, 8, 28, 14, 10, 26, 4}
 					} else if w.scale {
-						weights = []int{22, 18, 10, 22, 10, 7, 5, 6}
+						weights = []int{22, 18, 10, 22, 10, 7, 5, 6, 12}
 					}
 					switch r.Weighted(weights...) {
 					case 0:
@@ -1299,6 +1414,8 @@ func TestVerifC02Tree(t *testing.T) {
 						}
 					case 6:
 						structural = e.recreate() || structural
+					case 8:
+						structural = e.moveNoLendParentThenGrow() || structural
 					default:
 						e.boundary()
 					}
